@@ -36,6 +36,7 @@ func (r SatResult) String() string {
 type SolverStats struct {
 	Queries, Sat, Unsat, Unknown, Errors int
 	AltQueries, AltDecided               int
+	CrossQueries, CrossDecided           int
 	Time                                 time.Duration
 	MaxQuery                             time.Duration
 }
@@ -48,6 +49,8 @@ func (a *SolverStats) add(b SolverStats) {
 	a.Errors += b.Errors
 	a.AltQueries += b.AltQueries
 	a.AltDecided += b.AltDecided
+	a.CrossQueries += b.CrossQueries
+	a.CrossDecided += b.CrossDecided
 	a.Time += b.Time
 	if b.MaxQuery > a.MaxQuery {
 		a.MaxQuery = b.MaxQuery
@@ -234,6 +237,33 @@ func (s *Solver) readUntilMarker() []string {
 			lines = append(lines, line)
 		}
 	}
+}
+
+// Cross re-decides pc ∧ extra with the alternate back end under the short
+// limit (cross-check of assertion verdicts; Unknown = no second opinion).
+func (s *Solver) Cross(pc []*Term, extra []*Term) SatResult {
+	if s.AltKind == "" {
+		return Unknown
+	}
+	if s.alt == nil {
+		a, err := NewSolver(s.AltKind, s.ts, s.timeoutMs)
+		if err != nil {
+			return Unknown
+		}
+		s.alt = a
+	}
+	limit := s.FastMs
+	if limit <= 0 {
+		limit = 3000
+	}
+	t0 := time.Now()
+	r, _ := s.alt.check1(pc, extra, nil, limit)
+	s.Stats.Time += time.Since(t0)
+	s.Stats.CrossQueries++
+	if r != Unknown {
+		s.Stats.CrossDecided++
+	}
+	return r
 }
 
 // Check decides pc ∧ extra. With wantModel, values of vars are returned for sat.
